@@ -60,6 +60,12 @@ site('decl.c', 'addmember', 'error', "struct member '%s' has variably modified t
      T('bdecl', 'struct s_ { int (*m_)[h_l]; };', "'m_'"))
 
 # ------------------------------------------------------------------ decl.c: decl
+site('decl.c', 'declaratortypes', 'error', "parameter has type 'void'",
+     T('decl', 'int f_(void, int);', note='regression (fixed c220cfa): a later call failed an assertion'), T('decl', 'int f_(int, void);'), T('decl', 'int f_(void x_);', gcc='gcc accepts a NAMED void parameter in a declaration that is not a definition; 6.7.6.3p10 allows only the unnamed form'),
+     T('fdecl', 'int f_(int a_, void) { return a_; }'))
+site('decl.c', 'tagspec', 'error', 'underlying type of enum must be an integer type',
+     T('decl', 'enum e_ : float { A_ };', gcc=W_C23, note='regression (fixed 19c91d0)'), T('decl', 'enum e_ : void { A_ };', gcc=W_C23), T('decl', 'enum e_ : double { A_ = 1 };', gcc=W_C23),
+     T('decl', 'typedef int a3_[3]; enum e_ : a3_ { A_ };', gcc=W_C23))
 site('decl.c', 'decl', 'error', 'function definition must have a function declarator',
      T('fdecl', 'typedef int ft_(void); ft_ f_ { return 0; }', note='regression (fixed 9ed09ef): was the funcscope assertion'),
      T('fdecl', 'typedef void ft_(int); ft_ g_ { }'))
